@@ -28,6 +28,9 @@ def soft_hook(world, spec, oi, op, q, rec):
     if rec["exc"] is not None:
         return
     env = rec["env"]
+    if env.notes.get("soft_in_composed_dyn"):
+        rec["summary"]["soft_compare_skipped"] = "soft statement inside a dynamic block used as a Boolean operand"
+        return
     H = env.refc
     rsofts = [z3.Implies(g, s) for g, s, st in rec["softs"]]
     subs = rec["subs"]
